@@ -1105,12 +1105,16 @@ def hughes(C: np.ndarray) -> np.ndarray:
     tr = np.clip(np.trace(C, axis1=1, axis2=2), -1.0, 3.0)
     Q = np.zeros((C.shape[0], 4))
     Q[:, 0] = 0.5*np.sqrt(1.0 + tr)             # (eq. 15)
-    Q_w = np.where(np.isclose(Q[:, 0], 0.0), 1.0, Q[:, 0])  # Vector parts divided by one, when pure quaternion
+    pure = np.isclose(Q[:, 0], 0.0)             # trace = -1: q_w = 0 (Pure Quaternion)
+    Q_w = np.where(pure, 1.0, Q[:, 0])          # Vector parts divided by one, when pure quaternion
     Q[:, 1] = np.array(C[:, 1, 2]-C[:, 2, 1])   # (eq. 16)
     Q[:, 2] = np.array(C[:, 2, 0]-C[:, 0, 2])
     Q[:, 3] = np.array(C[:, 0, 1]-C[:, 1, 0])
     Q[:, 1:] /= 4.0*Q_w[:, None]
-    return Q
+    diagonals = np.diagonal(C, axis1=1, axis2=2)
+    Q[:, 1:] = np.where(pure[:, None], np.sqrt((1.0+diagonals)/2.0), Q[:, 1:])
+    Q[:, 1:] = np.where((Q[:, 0] > 0)[:, None], -Q[:, 1:], Q[:, 1:])    # same sign rule as the 3-by-3 case
+    return Q / np.linalg.norm(Q, axis=1)[:, None]
 
 def sarabandi(dcm: np.ndarray, eta: float = 0.0) -> np.ndarray:
     """
